@@ -28,7 +28,7 @@ def parseFilter (j : Json) : Option Glob.Config :=
 def parseOp (j : Json) : HOp :=
   { kind := jstr (jget j "op"), e := jnat (jget j "e"), models := (jarr (jget j "models")).map parseModel,
     model := (parseModel (jget j "model")).getD default, filter := parseFilter (jget j "filter"),
-    fail := jbool (jget j "fail"), i := jnat (jget j "i") }
+    fail := jbool (jget j "fail") || jbool (jget j "cancel"), i := jnat (jget j "i") }
 
 /-! ### canonical observation (what the harness snapshots) -/
 
